@@ -124,3 +124,21 @@ contract(E + "Exchange.repay_loan", props=["C01", "C02", "C07", "C11"], types={"
          modifies=["self._balances.balances", "self._balances.holds", "self._balances.borrowed",
                    "self._loan_mgr._loans._items[loan_id]._is_open", "content(self._loan_mgr._loans._items[loan_id]._paid_interest)",
                    "content(self._loan_mgr._collateral_by_loan)", "GHOST.ledger"])
+
+
+# C03: the exchange matches the open orders against the bar *before* it re-publishes the bar on the pair's derived source
+# (the strategies see the bar only then), and it re-publishes it on that pair's source only.
+contract(E + "Exchange._on_bar_event", props=["C03", "C01", "C05"], types={"event": "BarEvent"},
+         requires=EX_REQ + _om([("bar", "bar_wf(event.bar)"),
+                                ("clock", "clock_ok(om_lm(self)) and now_of(om_lm(self)) == event.when "
+                                          "and forall(lambda k=Id: implies(k in om_lm(self)._loans._items, now_of(om_lm(self)) >= om_lm(self)._loans._items[k]._created_at))"),
+                                ("strategies", "forall(lambda p=Pair: implies(p in self._liquidity_strategies, liq_cfg(self._liquidity_strategies[p])))")]),
+         ensures=[("matched", "same_object(self._order_mgr.last_bar, event)"),
+                  ("republished", "implies(event.bar.pair in self._bar_event_source, event in self._bar_event_source[event.bar.pair].pending)"),
+                  ("only_that_pair", "forall(lambda p=Pair: implies((p in self._bar_event_source) and p != event.bar.pair, "
+                                     "forall(lambda e=Event: (e in self._bar_event_source[p].pending) == old(e in self._bar_event_source[p].pending))))")],
+         site_pre={"push#0": [("matched_before_republish", "same_object(self._order_mgr.last_bar, event)")]},
+         may_suspend=False, raises={"Error": [], "AssertionError": []},
+         modifies=[m.replace("self.", "self._order_mgr.").replace("self._order_mgr._order_mgr", "self._order_mgr") if m.startswith("self.") or "(self." in m else m
+                   for m in []] + ["every(Order)", "every(LiquidityStrategy)", "every(ValueMap)", "every(FifoQueueEventSource)", "every(AccountBalances)",
+                                   "every(OrderManager)", "every(OrderContainer)", "every(Prices)", "every(Loan)", "every(LoanManager)", "every(LoanContainer)", "GHOST.ledger"])
